@@ -64,6 +64,7 @@ fn main() {
     run_cases(&ctx, &replay, &mut rep, "generated", n, |rng, rep, _| {
         let m = gen::gen_class(rng, &cfg);
         let feats = features::features(&m);
+        if m.methods.iter().any(|x| x.name.ascii() == Some("siblings$dyn")) { rep.count("shape.sibling_dynamics"); }
         let mut any = false;
         for li in 0..3u64 {
             let layout = if li == 0 { emit::Layout::canonical() } else { let mut l = emit::Layout::random(rng.next_u64()); if rng.chance(1, 4) { l.pool_filler = 250 + rng.below(20); } l };
@@ -101,6 +102,21 @@ fn main() {
         judge(rep, &format!("generated with a {size}-byte payload at {at}"), &m, &bytes, "large payload");
     });
 
+    // boundary counts: one table grown to 255 / 256 / 32767 / 32768 / 65535 entries
+    let nbig = ctx.tier.pick(200, 6_000);
+    run_cases(&ctx, &replay, &mut rep, "big-table", nbig, |rng, rep, _| {
+        let small = gen::GenCfg { max_fields: 2, max_methods: 2, max_insns: 10, major: Some(65), ..gen::GenCfg::default() };
+        let mut m = gen::gen_class(rng, &small);
+        let (what, n) = gen::add_big_table(rng, &mut m);
+        let layout = if rng.bool() { emit::Layout::canonical() } else { emit::Layout::random(rng.next_u64()) };
+        let Ok(bytes) = emit::emit(&m, &layout) else { rep.count("emit.skipped"); return; };
+        match parse::parse(&bytes) { Ok(p) if p == m => {}, other => { eprintln!("HARNESS-ERROR parse(emit(M)) != M for a big table ({what}, {n}): {:?}", other.err()); std::process::exit(3); } }
+        rep.eval(); rep.count(&format!("big.{what}")); if n >= 32_767 { rep.count(&format!("big.over_32766.{what}")); }
+        rep.seen("big_table_sizes", &n.to_string());
+        rep.nontrivial(common::rng::fnv_str(&format!("big {what} {n}")));
+        judge(rep, &format!("generated with {n} entries in {what}"), &m, &bytes, "big table");
+    });
+
     let corpus = cf::corpus::load(&ctx.verif_dir);
     let corpus_n = corpus.len() as u64;
     run_cases(&ctx, &replay, &mut rep, "corpus", corpus_n, |_rng, rep, i| {
@@ -136,6 +152,8 @@ fn main() {
         meta.oblige("pool indices pushed over 255 in some layout", rep.get("layouts.pool_over_255") > 0);
         meta.oblige("corpus classes were read", rep.get("corpus.classes") >= 100);
         meta.oblige("locals in all three index classes", rep.seen_n("local") >= 3);
+        meta.oblige("tables with 32767 or more entries were read (interfaces, inner classes, NestMembers, PermittedSubclasses, Exceptions, line numbers, local variables, exception table)", ["interfaces", "inner_classes", "nest_members", "permitted_subclasses", "method.exceptions", "code.line_numbers", "code.lvt", "code.exception_table"].iter().all(|k| rep.get(&format!("big.over_32766.{k}")) > 0));
+        meta.oblige("methods with dynamic constants / call sites sharing one bootstrap method entry", rep.get("shape.sibling_dynamics") > 0);
         meta.oblige("attribute payloads larger than 65536 bytes were read at class, field, method and Code level and as SourceDebugExtension", rep.get("large.over_65536") >= 30 && ["large.class.unknown", "large.class.source_debug_extension", "large.field.unknown", "large.method.unknown", "large.code.unknown"].iter().all(|k| rep.get(k) > 0));
     }
     std::process::exit(finish(&ctx, rep, meta));
